@@ -436,7 +436,10 @@ package raft
 //@   ensures  vote_le_current: voteTerm(r) <= curTermDurable(r)
 //@   ensures  log_untouched: r.lastLogIndex == old(r.lastLogIndex) && r.lastLogTerm == old(r.lastLogTerm) && r.commitIndex == old(r.commitIndex)
 //@   ensures  state_untouched: r.state == old(r.state)
+//@   ensures  self_vote_only_if_voter: result != nil && sent(result) > 0 ==> isVoter(r.configurations.latest, r.localID)
 //@   loop 1 invariant terms: r.currentTerm == curTermDurable(r) && voteTerm(r) <= curTermDurable(r)
+//@   loop 1 invariant own_vote_only_as_voter: respCh != nil && (sent(respCh) > 0 ==> exists k int :: 0 <= k && k < #i &&
+//@              r.configurations.latest.Servers[k].ID == r.localID && r.configurations.latest.Servers[k].Suffrage == Voter)
 
 //@ spec func cfg(r *Raft) Config = cast(r.conf.v, Config)
 
@@ -478,11 +481,11 @@ package raft
 //@   requires lease_positive: cfg(r).LeaderLeaseTimeout >= 0
 //@   safe
 //@   ensures  decision: (r.state == Follower) == (old(r.state) == Follower ||
-//@              leaseContacted(r, len(r.configurations.latest.Servers), now, leaseTimeout) < voterCount(r.configurations.latest)/2 + 1)
-//@   ensures  lease_is_configured: leaseTimeout == cfg(r).LeaderLeaseTimeout
+//@              leaseContacted(r, len(r.configurations.latest.Servers), lastnow(), cfg(r).LeaderLeaseTimeout) < voterCount(r.configurations.latest)/2 + 1)
+//@   loop 1 entry lease_is_configured: leaseTimeout == cfg(r).LeaderLeaseTimeout && now == lastnow()
 //@   ensures  maxdiff_range: 0 <= result && result <= cfg(r).LeaderLeaseTimeout
 //@   ensures  term_and_log_untouched: r.currentTerm == old(r.currentTerm) && r.lastLogIndex == old(r.lastLogIndex) && r.commitIndex == old(r.commitIndex)
-//@   loop 1 invariant tally: contacted == leaseContacted(r, #i, now, leaseTimeout) && 0 <= maxDiff && maxDiff <= leaseTimeout && r.state == old(r.state)
+//@   loop 1 invariant tally: contacted == leaseContacted(r, #i, lastnow(), cfg(r).LeaderLeaseTimeout) && 0 <= maxDiff && maxDiff <= leaseTimeout && r.state == old(r.state) && leaseTimeout == cfg(r).LeaderLeaseTimeout && now == lastnow()
 
 // ---------------------------------------------------------------------------
 // C14: pre-vote handler
@@ -1421,3 +1424,75 @@ package raft
 //@   ensures  connection_released_not_pooled: !old(n.shutdown) ==> released[n.conn] && n.shutdown
 //@   ensures  idempotent: old(n.shutdown) ==> released == old(released)
 //@   at call (*NetworkTransport).returnConn#* assert pipeline_connection_never_pooled: false
+
+// ---------------------------------------------------------------------------
+// pipelined replication, send side (C04: what is sent is what the request builder produced; the next
+// index to send moves just past the last entry sent, and only when the send succeeded)
+
+//@ func (r *Raft) pipelineSend
+//@   requires nonnil: r != nil && s != nil && nextIdx != nil && r.logs != nil && r.logger != nil && r.trans != nil && typeis(r.conf.v, Config)
+//@   localonly
+//@   ensures  failed_send_leaves_position: result ==> *nextIdx == old(*nextIdx)
+//@   ensures  position_moves_past_the_last_entry_sent: !result && len(req.Entries) > 0 && req.Entries[len(req.Entries) - 1].Index < MaxUint64 ==> *nextIdx == req.Entries[len(req.Entries) - 1].Index + 1
+//@   ensures  position_kept_when_nothing_was_sent: !result && len(req.Entries) == 0 ==> *nextIdx == old(*nextIdx)
+//@   at call AppendPipeline.AppendEntries#1 assert sends_the_request_it_built: arg0 == req
+//@   at call (*Raft).setupAppendEntries#1 assert builds_from_the_current_position: arg3 == *nextIdx && arg4 == lastIndex && arg1 == s && arg2 == req
+
+// a leadership-transfer target becomes candidate, forgets its leader and is allowed to skip pre-vote once
+//@ func (r *Raft) timeoutNow
+//@   requires nonnil: r != nil && rpc.RespChan != nil
+//@   localonly
+//@   ensures  becomes_privileged_candidate: r.state == Candidate && r.candidateFromLeadershipTransfer.v != 0 && r.leaderAddr == "" && r.leaderID == ""
+//@   ensures  term_untouched: r.currentTerm == old(r.currentTerm)
+//@   ensures  answered: sent(rpc.RespChan) == old(sent(rpc.RespChan)) + 1 && lastsent(rpc.RespChan).Error == nil
+
+// a follower that reports a newer term makes the leader step down: pending verify requests are voted
+// against and the step-down channel is signalled
+//@ func (r *Raft) handleStaleTerm
+//@   requires nonnil: r != nil && s != nil && r.logger != nil && s.stepDown != nil && s.notify != nil
+//@   localonly
+//@   at call (*followerReplication).notifyAll#1 assert votes_against_leadership: arg1 == false
+//@   at call asyncNotifyCh#1 assert asks_the_leader_to_step_down: arg0 == s.stepDown
+
+// C13: a reloaded configuration is stored only if it validates (lease within heartbeat within election)
+//@ func (r *Raft) ReloadConfig
+//@   requires nonnil: r != nil && typeis(r.conf.v, Config) && r.followerNotifyCh != nil
+//@   localonly
+//@   ensures  stored_configuration_is_valid: result == nil ==> typeis(r.conf.v, Config) && cfg(r).LeaderLeaseTimeout <= cfg(r).HeartbeatTimeout && cfg(r).HeartbeatTimeout <= cfg(r).ElectionTimeout && 5000000 <= cfg(r).LeaderLeaseTimeout
+//@   ensures  rejected_configuration_changes_nothing: result != nil ==> cfg(r) == old(cfg(r))
+
+// ---------------------------------------------------------------------------
+// C07, API side: each membership call queues exactly the change it names (command, server, stale-index
+// guard), once, or answers at once with an error without queueing
+
+//@ func (r *Raft) requestConfigChange
+//@   requires nonnil: r != nil && r.configurationChangeCh != nil && r.shutdownCh != nil
+//@   modifies sent(r.configurationChangeCh), received(r.shutdownCh), allof("CH.recv.time.Time"), allof("CH.lastrecv.time.Time")
+//@   ensures  queued_or_refused: typeis(result, *configurationChangeFuture) || (typeis(result, errorFuture) && (cast(result, errorFuture).err == ErrRaftShutdown || cast(result, errorFuture).err == ErrEnqueueTimeout))
+//@   ensures  queued_means_sent_once: typeis(result, *configurationChangeFuture) ==> sent(r.configurationChangeCh) == old(sent(r.configurationChangeCh)) + 1 && lastsent(r.configurationChangeCh) == cast(result, *configurationChangeFuture) && isfresh(cast(result, *configurationChangeFuture))
+//@   ensures  carries_the_request: typeis(result, *configurationChangeFuture) ==> cast(result, *configurationChangeFuture).req == req && cast(result, *configurationChangeFuture).errCh != nil
+//@   ensures  refused_means_not_sent: !typeis(result, *configurationChangeFuture) ==> sent(r.configurationChangeCh) == old(sent(r.configurationChangeCh))
+
+//@ func (r *Raft) AddVoter
+//@   requires nonnil: r != nil && r.configurationChangeCh != nil && r.shutdownCh != nil
+//@   localonly
+//@   ensures  queues_what_it_names: sent(r.configurationChangeCh) != old(sent(r.configurationChangeCh)) ==> lastsent(r.configurationChangeCh).req.command == AddVoter && lastsent(r.configurationChangeCh).req.serverID == id &&
+//@              lastsent(r.configurationChangeCh).req.serverAddress == address && lastsent(r.configurationChangeCh).req.prevIndex == prevIndex && r.protocolVersion >= 2
+
+//@ func (r *Raft) AddNonvoter
+//@   requires nonnil: r != nil && r.configurationChangeCh != nil && r.shutdownCh != nil
+//@   localonly
+//@   ensures  queues_what_it_names: sent(r.configurationChangeCh) != old(sent(r.configurationChangeCh)) ==> lastsent(r.configurationChangeCh).req.command == AddNonvoter && lastsent(r.configurationChangeCh).req.serverID == id &&
+//@              lastsent(r.configurationChangeCh).req.serverAddress == address && lastsent(r.configurationChangeCh).req.prevIndex == prevIndex && r.protocolVersion >= 3
+
+//@ func (r *Raft) RemoveServer
+//@   requires nonnil: r != nil && r.configurationChangeCh != nil && r.shutdownCh != nil
+//@   localonly
+//@   ensures  queues_what_it_names: sent(r.configurationChangeCh) != old(sent(r.configurationChangeCh)) ==> lastsent(r.configurationChangeCh).req.command == RemoveServer && lastsent(r.configurationChangeCh).req.serverID == id &&
+//@              lastsent(r.configurationChangeCh).req.prevIndex == prevIndex && r.protocolVersion >= 2
+
+//@ func (r *Raft) DemoteVoter
+//@   requires nonnil: r != nil && r.configurationChangeCh != nil && r.shutdownCh != nil
+//@   localonly
+//@   ensures  queues_what_it_names: sent(r.configurationChangeCh) != old(sent(r.configurationChangeCh)) ==> lastsent(r.configurationChangeCh).req.command == DemoteVoter && lastsent(r.configurationChangeCh).req.serverID == id &&
+//@              lastsent(r.configurationChangeCh).req.prevIndex == prevIndex && r.protocolVersion >= 3
